@@ -1,10 +1,10 @@
 SPECIFICATION Spec
 CONSTANTS
   NAddr = 3
-  NSlot = 2
+  NSlot = 1
   Vals <- V02
   Amts <- A01
-  Genesis <- GenJ2
+  Genesis <- GenJ1
   HasLock <- NoLock3
   Ops <- OpsJ
   MaxMut = 3
